@@ -628,6 +628,10 @@ def run_C19(ctx):
         forms_filled += len(res['fdfs'])
         for key, msg in o.check_fill(year, r['solver'], res):
             bad.append((key, msg, scenario_replay(r)))
+    seq_probs, seq_checked = o.sequence_check()
+    for key, msg in seq_probs:
+        bad.append((key, msg, {'kind': 'template', 'case': key}))
+    ctx.notes.append(f'attachment sequence numbers printed in {seq_checked} templates compared with sequence_no')
     # direct: length limits and choice lists never truncate / substitute
     rng = random.Random(f'{ctx.seed}/c19-fields')
     class F:  # minimal field object
@@ -1752,6 +1756,16 @@ def run_C16(ctx):
                 r = sc.run(year, ['1040', 'nc_d-400'], pol)
                 r['kind'], r['scenario_seed'], r['policy'] = 'nc-children', sd, pol
                 runs.append(r)
+    # several copies of every payer form, in unequal numbers, each with federal tax withheld
+    for year in (2021, 2022, 2023):
+        for j, counts in enumerate([(2, 2, 1, 1), (1, 3, 2, 2), (2, 1, 3, 1)]):
+            sd = f'{ctx.seed}/c16/copies/{year}/{j}'
+            pol, kind = sc.gen_policy(sd, year, kind='plain')
+            pol.fixed.update({'1040.number_w-2': str(counts[0]), '1040.number_1099-int': str(counts[1]), '1040.number_1099-div': str(counts[2]),
+                              '1040.number_1099-r': str(counts[3]), 'box_4': ['144.00', '75.50', '12.00'][j], 'box_2': '3100.00'})
+            r = sc.run(year, ['1040'], pol)
+            r['kind'], r['scenario_seed'], r['policy'] = 'copies', sd, pol
+            runs.append(r)
     # NC returns with N.C. tax withheld on every kind of payer form, jointly owned where the form allows it
     for year in (2021, 2022, 2023):
         for st in ('MarriedFilingJointly', 'Single'):
